@@ -58,6 +58,7 @@ struct RuntimeFunctionIndices {
     closure_call: u32,
     closure_state_push: u32,
     closure_state_pop: u32,
+    closure_state_reset: u32,
     state_push: u32,
     state_pop: u32,
     state_get: u32,
@@ -534,6 +535,8 @@ impl WasmGenerator {
         self.type_section.ty().function(vec![ValType::I64], vec![]);
         self.rt.state_push = self.add_import("state_push", type_idx);
         self.rt.state_pop = self.add_import("state_pop", type_idx);
+        // closure_state_reset(closure_addr): a newly made closure starts with zeroed state
+        self.rt.closure_state_reset = self.add_import("closure_state_reset", type_idx);
         type_idx += 1;
 
         // Type 11: (i32, i32) -> ()  for state_get, state_set
@@ -2728,6 +2731,7 @@ impl WasmGenerator {
 
                 // Runtime allocation: base address saved in alloc_base_local
                 self.emit_runtime_alloc(closure_size_bytes, func);
+                self.emit_closure_state_reset(func);
 
                 // Store function table index at base (table idx = MIR fn idx)
                 func.instruction(&W::LocalGet(self.alloc_base_local));
@@ -3678,6 +3682,7 @@ impl WasmGenerator {
 
                 // Runtime allocation
                 self.emit_runtime_alloc(closure_size_bytes, func);
+                self.emit_closure_state_reset(func);
 
                 // Store function table index
                 func.instruction(&W::LocalGet(self.alloc_base_local));
@@ -4679,6 +4684,16 @@ impl WasmGenerator {
         self.emit_value_load(closure_ptr, func);
         func.instruction(&W::I64Const(state_size as i64));
         func.instruction(&W::Call(self.rt.closure_state_push));
+    }
+
+    /// Emit closure_state_reset for the closure that has just been allocated (its address is in
+    /// `alloc_base_local`): the bump allocator hands out the same addresses again after every
+    /// tick, and the host keys closure state by address.
+    fn emit_closure_state_reset(&self, func: &mut Function) {
+        use wasm_encoder::Instruction as W;
+        func.instruction(&W::LocalGet(self.alloc_base_local));
+        func.instruction(&W::I64ExtendI32U);
+        func.instruction(&W::Call(self.rt.closure_state_reset));
     }
 
     /// Emit closure_state_pop host function call.
